@@ -45,6 +45,7 @@ func withPreload(c *Ctx, r *Rng, files map[string][]byte) {
 	}
 	files[".ti-loader.json"] = []byte(`{"preload":["` + strings.Join(names, `","`) + `"]}`)
 }
+
 var reDigits = regexp.MustCompile(`[0-9]+`)
 
 func lineShape(l string) string {
@@ -257,12 +258,27 @@ func aliasChainProgram(r *Rng) []byte {
 	ids := []string{"w", "x", "y", "z", "u"}[:r.Range(2, 5)]
 	for d := 0; d < r.Range(1, 3); d++ {
 		fmt.Fprintf(&sb, "def a%d\n", d)
-		for k := 0; k < r.Range(2, 7); k++ {
-			rhs := r.Pick(ids)
-			if r.Chance(1, 6) {
-				rhs = r.Pick([]string{"1", "'s'", "nil", "a0", "a1"})
+		if r.Chance(1, 2) {
+			// a functional graph over the identifiers (every identifier is assigned exactly one
+			// other identifier): such graphs are made of cycles with tails leading into them.
+			// The assignments are emitted in a drawn order, so some right-hand sides are still
+			// unknown names when they are used and others already hold a value.
+			order := append([]string(nil), ids...)
+			for k := len(order) - 1; k > 0; k-- {
+				j := r.Intn(k + 1)
+				order[k], order[j] = order[j], order[k]
 			}
-			fmt.Fprintf(&sb, "  %s = %s\n", r.Pick(ids), rhs)
+			for _, lhs := range order {
+				fmt.Fprintf(&sb, "  %s = %s\n", lhs, r.Pick(ids))
+			}
+		} else {
+			for k := 0; k < r.Range(2, 7); k++ {
+				rhs := r.Pick(ids)
+				if r.Chance(1, 6) {
+					rhs = r.Pick([]string{"1", "'s'", "nil", "a0", "a1"})
+				}
+				fmt.Fprintf(&sb, "  %s = %s\n", r.Pick(ids), rhs)
+			}
 		}
 		fmt.Fprintf(&sb, "  %s\nend\n", r.Pick(ids))
 	}
@@ -461,6 +477,8 @@ func judgeTiRun(prop string, res Result, slow bool, lineOK func(string) bool, ta
 		return &Finding{Sig: tag + "panic:" + res.Panic + "@" + at, What: "Go runtime panic: " + firstLine(res.PanicS) + " in " + strings.Join(res.PanicAt, " < ")}
 	case "fatal":
 		return &Finding{Sig: tag + "fatal:" + res.Panic, What: "worker process died: " + res.Panic}
+	case "deadlock":
+		return &Finding{Sig: tag + "fatal:all goroutines are asleep - deadlock!", What: "every goroutine of the process is blocked and no timer is pending (the Go runtime ends such a process with a fatal error, exit 2)"}
 	}
 	if res.Exit != 0 {
 		return &Finding{Sig: fmt.Sprintf("%sexit:%d", tag, res.Exit), What: fmt.Sprintf("exit status %d, stdout %q stderr %q", res.Exit, shortStr(res.Stdout, 120), shortStr(res.Stderr, 120))}
@@ -714,7 +732,7 @@ func (o *tiSession) Rule() string {
 	return "a case is an editor session: a program typed in steps (chars, tokens, lines, pastes, deletions), each save possibly torn, each followed by --suggest/--hover/--define --row=N with N from the cursor, a stale cursor, 0, or past EOF; plus grid cases (every line/token-boundary prefix x every row 0..lines+2 x 3 modes). distinct = distinct (mode, row class, EOF-context) cells of invocations that booted"
 }
 func (o *tiSession) ExpectedFaults() []string {
-	return []string{"F1-torn", "F2-nonl", "stale-row", "row-0", "row-past-eof", "row-on-blank-or-comment", "deletion"}
+	return []string{"F1-torn", "F2-nonl", "stale-row", "row-0", "row-past-eof", "row-on-blank-or-comment", "row-impossible", "deletion"}
 }
 
 func rowClass(content []byte, row int) string {
@@ -843,12 +861,36 @@ func (o *tiSession) Make(c *Ctx, i int) *Case {
 			case 6:
 				row = 1 + r.Intn(lines)
 			}
+			rowArg := ""
+			if r.Chance(1, 25) {
+				// rows no line can have: negative, far past the end, beyond the int range, or
+				// no --row argument at all (what a confused plugin sends)
+				switch r.Intn(4) {
+				case 0:
+					row = -r.Range(1, lines+1)
+				case 1:
+					row = 1<<31 - r.Intn(3)
+				case 2:
+					rowArg = "--row=99999999999999999999"
+					row = 0
+				default:
+					rowArg = "-"
+					row = 0
+				}
+				cs.Faults = append(cs.Faults, "row-impossible")
+			}
 			rc := rowClass(content, row)
 			if rc == "row-0" || rc == "row-past-eof" || rc == "row-on-blank-or-comment" {
 				cs.Faults = append(cs.Faults, rc)
 			}
 			mode := queryModes[r.Intn(3)]
-			st := Step{Node: "ti", Argv: []string{target, mode, fmt.Sprintf("--row=%d", row)}, Seed: r.U64(), Sched: "seeded", Note: rc + "|" + ctx}
+			argv := []string{target, mode, fmt.Sprintf("--row=%d", row)}
+			if rowArg == "-" {
+				argv = argv[:2]
+			} else if rowArg != "" {
+				argv[2] = rowArg
+			}
+			st := Step{Node: "ti", Argv: argv, Seed: r.U64(), Sched: "seeded", Note: rc + "|" + ctx}
 			if q == 0 {
 				st.Files = map[string][]byte{target: content}
 			}
